@@ -38,6 +38,9 @@ ASSUMPTIONS = [
 def cases_flags(tier):
     for R, J, K in ((1, 1, 0), (2, 1, 1), (2, 2, 0), (3, 1, 1)) if tier == "quick" else ((1, 1, 0), (2, 1, 1), (2, 2, 0), (3, 1, 1), (3, 2, 2), (2, 2, 1)):
         yield "propagate/R%dJ%dK%d" % (R, J, K), {"what": "propagate", "R": R, "J": J, "K": K}
+    # infinite values are values, not failures: a realization with +inf in one column and -inf in another has not failed
+    yield "propagate/R2J2K2/opposite-infinities-in-one-row", {"what": "propagate", "R": 2, "J": 2, "K": 2, "inf": True}
+    yield "propagate/R2J2K0/opposite-infinities-in-one-row", {"what": "propagate", "R": 2, "J": 2, "K": 0, "inf": True}
     for R, P in ((1, 1), (2, 2), (3, 2)) if tier == "quick" else ((1, 1), (2, 2), (3, 2), (2, 3)):
         for pms in range(1, P + 1):
             yield "failed/R%dP%d/min=%d" % (R, P, pms), {"what": "failed", "R": R, "P": P, "pms": pms}
@@ -49,8 +52,12 @@ def scn_flags(T, case):
     if case["what"] == "propagate":
         f = T.func(MR, "_propagate_nan_values")
         J, K = case["J"], case["K"]
-        O = T.real("objectives", (R, J), nan="sym")
-        C = T.real("constraints", (R, K), nan="sym") if K else None
+        okinds = ckinds = None
+        if case.get("inf"):
+            okinds = np.array([["+inf", "-inf"]] + [["fin"] * J] * (R - 1), dtype=object)
+            ckinds = np.array([["-inf", "+inf"]] + [["fin"] * K] * (R - 1), dtype=object) if K else None
+        O = T.real("objectives", (R, J), nan="sym", kinds=okinds)
+        C = T.real("constraints", (R, K), nan="sym", kinds=ckinds) if K else None
         O0, C0 = O.copy(), None if C is None else C.copy()
         PO, PC = f(O, C)
         T.prove("C03.propagate.arguments_not_modified", T.same(O, O0) & (T.same(C, C0) if K else True))
@@ -408,6 +415,22 @@ def scn_history(T, case):
     else:
         C02.scn_gradient(Renamed(T, "C02.", "C03.history.gradients."), case)
 
+# ------------------------------------------------------------------------------------ failed realizations are never ranked by a sort filter
+def cases_filter_windows(tier):
+    from contracts import C05
+
+    return C05.cases_select_sweep(tier)
+
+
+def scn_filter_windows(T, case):
+    """With realization filters 'as if the failed realizations were absent' includes the ranking: a failed realization is never ranked,
+    whatever the window and the ensemble size (C05's bounded sweep over every window of every size, with failures, under this
+    property's prefix)."""
+    from contracts import C05
+    from contracts.reuse import Renamed
+
+    C05.scn_select_sweep(Renamed(T, "C05.select_sweep.", "C03.filter_windows."), case)
+
 SCENARIOS = [
     Scenario("failure_flags", scn_flags, cases_flags, {"quick": 10, "thorough": 100}),
     Scenario("reduced_ensemble_equivalence", scn_equiv, cases_equiv, {"quick": 3, "thorough": 20}),
@@ -417,6 +440,7 @@ SCENARIOS = [
     Scenario("validated_success_threshold", scn_threshold, cases_threshold, {"quick": 2, "thorough": 10}),
     Scenario("filters_failures_and_combined_requests", scn_filters_and_failures, cases_filters_and_failures, {"quick": 5, "thorough": 30}),
     Scenario("evaluator_with_a_history", scn_history, cases_history, {"quick": 5, "thorough": 30}),
+    Scenario("failed_realizations_are_never_ranked_bounded", scn_filter_windows, cases_filter_windows, {"quick": 1, "thorough": 3}),
 ]
 
 MANIFEST = {
